@@ -212,8 +212,11 @@ def chk_triple(repo, rng, tier, tmp, want_keyspace):
     special = [None]
     if want_keyspace:
         # lists dominated by passwords whose length equals the n-gram size, or by a single length (length cost 0)
-        special = [['abcd'] * 5 + ['abce'] + ['hello1'] * 5, ['abcdef'] * 700 + ['xyzdef'], None, None, None, None]
-        configs = [(4, 100)] * 6 + configs[1:]
+        special = [['abcd'] * 5 + ['abce'] + ['hello1'] * 5, ['abcdef'] * 700 + ['xyzdef'], None, None, None, None,
+                   # a small alphabet: the levels from 10 on (where strings start with an n-gram that never starts a training password,
+                   # initial level 10 after smoothing) are small enough to be enumerated
+                   ['abab'] * 6 + ['abba'] * 3 + ['abcab'] * 2 + ['baab'] + ['abab1'] * 2 + ['bcb', 'b1ab']]
+        configs = [(4, 100)] * 6 + [(3, 100)] + configs[1:]
     for ci, (ngram, asize) in enumerate(configs):
         words = [rng.choice(WORDS) for _ in range(30)] + ['abcd'] * 5 + ['abce'] + ['hello1'] * 5 + [('abcd' * 6)[:21]] * 2
         if want_keyspace and ci >= 2:
@@ -227,6 +230,8 @@ def chk_triple(repo, rng, tier, tmp, want_keyspace):
             yield {'words': words, 'ngram': ngram}, False, {'why': 'save_omen_rules_to_disk failed'}, True
             continue
         upto = 6 if ngram >= 4 else 4
+        if want_keyspace and ci == 6:
+            upto = 11
         emitted, per_level = guesser_levels(repo, base, upto)
         if want_keyspace:
             listed, probs = {}, {}
